@@ -375,6 +375,11 @@ func (l *Lexer) readString() (string, int, int, int) {
 		endChar = l.prevCharNumber
 		endUtf8Char = l.prevUtf8CharNumber
 		l.skipWhitespace()
+		// A comment may follow a piece of a multi-line string. The string continues after it.
+		for l.ch == '#' || (l.ch == '/' && l.peekChar() == '/') {
+			l.skipToNextLine()
+			l.skipWhitespace()
+		}
 	}
 	return sb.String(), endLine, endChar, endUtf8Char
 }
